@@ -26,6 +26,7 @@ func intBin(name string, x int64, cx int, y int64, cy int, c int, al int, f func
 		ev["r"] = proj(out.Big())
 		ev["ra"] = out.AnnouncedLen()
 		ev["neg"] = b2i(out.IsNegative())
+		ev["xp"], ev["yp"] = proj(xn.Big()), proj(yn.Big())
 		emit(name, ev)
 	})
 }
@@ -57,7 +58,7 @@ func runInt() {
 				cx, cy := capOf(x, sel), capOf(y, sel/5+1)
 				c := -1
 				if sel%3 == 1 {
-					c = bitlen(x*y+abs64(x)+abs64(y)) + 2 // large enough: sums and products never wrap
+					c = bitlen(abs64(x*y)+abs64(x)+abs64(y)) + 2 // large enough: sums and products never wrap
 				}
 				if o.name == "i.mul" && sel%7 == 3 {
 					c = max(bitlen(trunc(x, cx)*trunc(y, cy))-1, 1) // one bit short: magnitude is cut, sign kept
@@ -117,6 +118,7 @@ func runInt() {
 					}
 					ev["ok"] = b2i(ok)
 					ev["q"], ev["qa"] = proj(q.Big()), q.AnnouncedLen()
+					ev["xp"], ev["yp"] = proj(xn.Big()), proj(yn.Big())
 					emit(name, ev)
 				})
 			}
